@@ -38,7 +38,7 @@ Definition xfold (c : cfg) (s : hstate) (ic : bool) (us : list (guse nat)) : res
 (** the legal spellings: those of Spell.v plus a free value as a word of its
     own and, at the end of the line, "--" followed by values *)
 Definition xspell (c : cfg) : list (guse nat) -> list str -> Prop :=
-  gspell nat (long_name c) (short_name c) (takes_none c) (takes_required c).
+  gspell nat (long_name c) (short_name c) (takes_none c) (takes_required c) (takes_optional c).
 
 Definition embed (u : use) : guse nat :=
   match u with UFlag i => GFlag i | UVal i v => GVal i v end.
@@ -79,6 +79,29 @@ Section One.
 Variable c : cfg.
 Hypothesis Hfix : fixed_notify c = true.
 
+(** an argument with an optional value: no value follows / a value follows *)
+Lemma opt_none_step s ic k i cur :
+  lookup c k = Ok (Some i) -> takes_optional c i -> no_value_ahead cur ->
+  process_arg c s ic k cur = do s1 <- use_step c s ic (UFlag i); Ok (AConsumed, s1, cur).
+Proof.
+  intros Hl Ho Hn. unfold process_arg. rewrite Hl. cbn [bind].
+  unfold takes_optional, argdef_of in Ho. rewrite Ho. unfold no_value_ahead in Hn.
+  unfold use_step, with_last, argdef_of.
+  rewrite (handle_identified_key c _ i k (a_key (nth i (args c) dummy_def)) ic [] Hfix).
+  destruct (next false cur) as [[[e it']|]|?|?]; try contradiction; cbn [bind]; [|reflexivity].
+  destruct e; try contradiction; reflexivity.
+Qed.
+
+Lemma opt_val_step s ic k i cur v it2 :
+  lookup c k = Ok (Some i) -> takes_optional c i -> next false cur = Ok (Some (EVal v, it2)) ->
+  process_arg c s ic k cur = do s1 <- use_step c s ic (UVal i v); Ok (AConsumed, s1, it2).
+Proof.
+  intros Hl Ho Hn. unfold process_arg. rewrite Hl. cbn [bind].
+  unfold takes_optional, argdef_of in Ho. rewrite Ho, Hn. cbn [bind].
+  unfold use_step, with_last, argdef_of.
+  rewrite (handle_identified_key c _ i k (a_key (nth i (args c) dummy_def)) ic v Hfix). reflexivity.
+Qed.
+
 (** evaluation of the words of any legal spelling (extended grammar) = the
     spelling-free semantics *)
 Theorem xeval_words_spelled ic us ws s :
@@ -86,7 +109,7 @@ Theorem xeval_words_spelled ic us ws s :
 Proof.
   intros Hsp. unfold eval_words, xfold.
   rewrite <- (gspell_eval nat hstate (fun _ => True) (fun s e cur => eval_single c s ic e cur) EInvalidArgument
-                (xuse_step c ic) (long_name c) (short_name c) (takes_none c) (takes_required c))
+                (xuse_step c ic) (long_name c) (short_name c) (takes_none c) (takes_required c) (takes_optional c))
     with (ws := ws); auto.
   - destruct (first ws); cbn [bind]; auto. apply iterate_giter.
   - intros i w (Hw & He & _). auto.
@@ -97,6 +120,12 @@ Proof.
     unfold eval_single. rewrite Hk. cbn [bind]. apply value_step; auto.
   - intros s0 i ch cur v it2 _ Hs Hr Hnx. cbn [xuse_step].
     unfold eval_single. apply value_step; auto. apply Hs.
+  - intros s0 i w cur _ (Hw & He & k & Hk & Hl) Ho Hn. cbn [xuse_step].
+    unfold eval_single. rewrite Hk. cbn [bind]. apply opt_none_step; auto.
+  - intros s0 i ch cur _ (Hc & Hl) Ho Hn. cbn [xuse_step]. unfold eval_single. apply opt_none_step; auto.
+  - intros s0 i w cur v it2 _ (Hw & He & k & Hk & Hl) Ho Hn. cbn [xuse_step].
+    unfold eval_single. rewrite Hk. cbn [bind]. apply opt_val_step; auto.
+  - intros s0 i ch cur v it2 _ (Hc & Hl) Ho Hn. cbn [xuse_step]. unfold eval_single. apply opt_val_step; auto.
   - intros s0 v cur _. cbn [xuse_step]. apply free_step_single.
 Qed.
 
